@@ -88,9 +88,13 @@ fn msg_key(m: &str) -> String {
     let m = m.lines().next().unwrap_or("");
     if m.contains("ParseIntError") { return "from_str_radix(..).unwrap() on Err".into(); }
     if m.starts_with("Expected ") || m.starts_with("Unexpected ") { return m.split_whitespace().take(2).collect::<Vec<_>>().join(" "); }
-    let cut: String = m.chars().take(70).collect();
-    cut
+    // std's messages quote the offending text and numbers: keep the fixed words only
+    let cut = m.split(|c| c == ';' || c == '`' || c == '\'' || c == '"').next().unwrap_or("");
+    let cut: String = cut.chars().filter(|c| !c.is_ascii_digit() && (' '..='~').contains(c)).take(70).collect();
+    cut.split_whitespace().collect::<Vec<_>>().join(" ")
 }
+/// printable one-line rendering of a message for the report lines
+fn plain(m: &str) -> String { m.lines().next().unwrap_or("").chars().map(|c| if (' '..='~').contains(&c) { c } else { '?' }).take(160).collect() }
 
 // ------------------------------------------------------------------------------------------------
 // stage results
@@ -602,10 +606,11 @@ struct Run {
 }
 impl Run {
     fn note(&mut self, stream: &str, key: String) { *self.dist.entry(stream.to_string()).or_default().entry(key).or_default() += 1; }
-    fn fail(&mut self, class: String, what: String, mut detail: J) {
+    fn fail(&mut self, class: String, what: String, detail: J) { self.fail_k(class, what, detail, 2) }
+    fn fail_k(&mut self, class: String, what: String, mut detail: J, keep: usize) {
         let n = self.per_class.entry(class.clone()).or_default();
         *n += 1;
-        if *n <= 2 {
+        if *n <= keep {
             detail["what"] = json!(what);
             detail["classes"] = json!([class]);
             self.direct.push(detail);
@@ -631,7 +636,7 @@ impl Run {
             if let Some(p) = &st.panic {
                 let mut class = format!("panic:{}:{}", p.file, msg_key(&p.msg));
                 for t in &st.tags { class.push(':'); class.push_str(t); }
-                self.fail(class, format!("{} panics at {}:{} ({})", st.name, p.file, p.line, p.msg.lines().next().unwrap_or("")),
+                self.fail(class, format!("{} panics at {}:{} ({})", st.name, p.file, p.line, plain(&p.msg)),
                           json!({"stream": stream, "kind": kind, "stage": st.name, "site": format!("{}:{}", p.file, p.line), "message": p.msg, "input": input}));
             }
         }
@@ -962,22 +967,24 @@ fn main() {
             for w in lex(schema).windows(2) { if w[0] == "scalar" && w[1] != "String" && w[1].chars().all(|c| c.is_ascii_alphanumeric()) { y.push_str(&format!("          {}: string\n", w[1])); } }
             std::fs::write(dir.join("graphql.config.yaml"), cfg.clone().unwrap_or(y)).unwrap();
             let fmt = ["human", "json", "rdjson"][k % 3];
-            let o = std::process::Command::new(cli).current_dir(&dir).env("NO_COLOR", "1").args(["--output-format", fmt, "check", "generate"]).output();
+            let o = std::process::Command::new(cli).current_dir(&dir).env("NO_COLOR", "1").env("RUST_BACKTRACE", "0").args(["--output-format", fmt, "check", "generate"]).output();
             run.evaluations += 1;
             match o {
                 Err(e) => run.fail("cli-spawn".into(), format!("cannot run the CLI: {e}"), json!({"project": what})),
                 Ok(o) => {
                     let code = o.status.code();
                     *cli_stats.entry(format!("{}", code.map(|c| c.to_string()).unwrap_or("signal".into()))).or_default() += 1;
-                    if code != Some(0) && code != Some(1) {
-                        let err = String::from_utf8_lossy(&o.stderr).to_string();
+                    let err = String::from_utf8_lossy(&o.stderr).to_string();
+                    let panicked = err.contains("panicked at ");
+                    if panicked { *cli_stats.entry(format!("panic message on stderr with exit status {}", code.map(|c| c.to_string()).unwrap_or("signal".into()))).or_default() += 1; }
+                    if (code != Some(0) && code != Some(1)) || panicked {
                         // "thread 'main' panicked at crates/.../x.rs:LINE:COL:\nmessage"
                         let (site, msg) = err.split("panicked at ").nth(1).map(|r| { let mut l = r.lines(); (l.next().unwrap_or("").trim_end_matches(':').to_string(), l.next().unwrap_or("").to_string()) }).unwrap_or(("?".into(), err.chars().take(200).collect()));
                         let file = norm_file(site.split(':').next().unwrap_or("?"));
                         let mut class = format!("panic:{}:{}", file, msg_key(&msg));
                         for t in tags { class.push(':'); class.push_str(t); }
-                        run.fail(class, format!("nitrogql-cli exits with {:?} (not 0/1) on project '{what}': {site}: {msg}", code),
-                                 json!({"stream": "cli", "project": what, "schema": schema, "operations": ops, "config": cfg, "output_format": fmt, "stderr_tail": err.chars().rev().take(600).collect::<String>().chars().rev().collect::<String>()}));
+                        run.fail_k(class, format!("nitrogql-cli panics on project '{what}' (exit status {:?}; a panic inside the CLI's async task is swallowed by the executor, so the status can even be 0): {}: {}", code, plain(&site), plain(&msg)),
+                                 json!({"stream": "cli", "project": what, "schema": schema, "operations": ops, "config": cfg, "output_format": fmt, "exit_status": code, "stderr_head": err.chars().take(400).collect::<String>()}), usize::MAX);
                     }
                 }
             }
